@@ -75,9 +75,32 @@ func verifC03_complete_sound() {
 		v2 := verifBytes("other-key-value", 1)
 		verifAssert("C03/other-key-rejected", !proof.Verify(k2, v2, root))
 	case 2:
-		r2 := verifWide("other-root", 32)
+		// another root of 32, 33 or 64 bytes, given to Verify directly and through ReadProof
+		// (the store hands the caller's root to ReadProof, which records it in the proof)
+		// (roots derived from the real one are built from it so that a counterexample can be
+		// replayed with the real hash function)
+		var r2 []byte
+		switch verifChoose("other-root.shape", 4) {
+		case 0:
+			r2 = verifWide("other-root", 32)
+		case 1:
+			r2 = append(verifBytes("other-root.prefix", []int{1, 32}[verifChoose("other-root.prefix.len", 2)]), root...)
+		case 2:
+			r2 = append(append([]byte{}, root...), verifBytes("other-root.suffix", 1)...)
+		case 3:
+			r2 = append([]byte{}, root...)
+			m := verifU8("other-root.flip")
+			verifAssume(m != 0)
+			r2[verifChoose("other-root.flip-at", 2)*31] ^= m
+		}
 		verifAssume(!bytes.Equal(r2, root))
 		verifAssert("C03/other-root-rejected", !proof.Verify(keys[i], vals[i], r2))
+		data, _ := proto.Marshal(&types.MAVLProof{InnerNodes: proof.InnerNodes})
+		back, err := ReadProof(r2, proof.LeafHash, data)
+		verifAssert("C03/proof-decodes", err == nil && back != nil)
+		if back != nil {
+			verifAssert("C03/other-root-rejected-through-readproof", !back.Verify(keys[i], vals[i], r2))
+		}
 	case 3:
 		// a proof with one inner node dropped or duplicated must not verify
 		p2 := &Proof{LeafHash: proof.LeafHash, RootHash: proof.RootHash}
